@@ -22,7 +22,7 @@ RULE = ("a case = scenario x response variant x password used.  Scenario: factor
         "challenge of the same factory and one of a second factory are always outstanding.  Variant: 6 header layouts, "
         "and for each of the 10 response fields {missing, empty, empty-unquoted, one character replaced at "
         "first/middle/last position by another plain character or by one of quote comma equals backslash 0x80 NUL LF CR, "
-        "a character inserted (plain / '!'), a character deleted, requoted}, with separate positions inside the digest "
+        "a character inserted (plain / '!'; in the opaque also * . _ ~ 0x01 0x7f 0x80 space TAB LF =), a character deleted, requoted}, with separate positions inside the digest "
         "and the key half of the opaque; consistent client-side choices (other uri, username, cnonce, nc, realm, "
         "method, nonce, algorithm, no qop); 20 opaque forgeries (other challenge, other factory, re-keyed address / "
         "time / nonce under the old digest, self-signed, malformed base64, wrong part counts); parameter-name "
@@ -31,9 +31,9 @@ RULE = ("a case = scenario x response variant x password used.  Scenario: factor
         "lifetime; otherwise decode raises LoginFailed or checkPassword is False; no other exception ever.  Where the "
         "statement does not decide (realm/algorithm echo altered, qop omitted) only the exception rule is judged.  "
         "non-trivial = distinct (scenario class, variant) whose outcome is not a plain accept")
-BOUNDS = {"quick": "360 scenarios x 531 single variants x 2 passwords; all field-disjoint pairs of 121 representative "
+BOUNDS = {"quick": "360 scenarios x 608 single variants x 2 passwords; all field-disjoint pairs of 121 representative "
                    "variants (one per mutation class) in 6 scenarios",
-          "thorough": "360 scenarios x 531 single variants x 2 passwords; all field-disjoint pairs of 121 representative "
+          "thorough": "360 scenarios x 608 single variants x 2 passwords; all field-disjoint pairs of 121 representative "
                       "variants in 54 scenarios"}
 ASSUMPTIONS = [
     "the clock is DigestCredentialFactory._getTime (instance attribute set by the harness); random bytes come from "
@@ -62,8 +62,9 @@ FIELDS = ["username", "realm", "nonce", "uri", "response", "algorithm", "cnonce"
 UNQUOTED_RFC = {"algorithm", "qop", "nc"}
 SPECIALS = [b'"', b",", b"=", b"\\", b"\x80", b"\x00", b"\n", b"\r"]
 
+OPAQUE_JUNK = [b"*", b".", b"_", b"~", b"\x01", b"\x7f", b"\x80", b" ", b"\t", b"\n", b"="]   # besides '!'
 INTACT, REJECT, UNJUDGED = "intact", "reject", "unjudged"
-NONCANON = "opaque:key-half-respelled-with-non-base64-characters"
+NONCANON = "opaque:key-half-respelled"
 
 
 # ---------------------------------------------------------------- reference client (oracle side)
@@ -201,8 +202,8 @@ def _edit(f, label, op, arg=None):
             new = v[:i] + ch + v[i:]
         else:
             new = v[:i] + v[i + 1:]
-        if new == v:
-            r.noops += 1
+        if b" ".join(new.splitlines()).strip() == v:
+            r.noops += 1      # unchanged, or only white space at the edge of the value (trimmed by any parser; unjudged)
         r.fields[f] = new
     return post
 
@@ -251,9 +252,12 @@ def build_variants(ctx):
                 add(Variant(tag, cls, [f], _field_expect(f, kind), post=_edit(f, label, "replace", rep)))
             if label == "dash":
                 continue
-            for kind, ins in (("plain", None), ("junk", b"!")):
+            inserts = [("plain", None), ("junk", b"!")]
+            if f == "opaque":
+                inserts += [("junk", j) for j in OPAQUE_JUNK]
+            for kind, ins in inserts:
                 cls = "%s:char-inserted:%s" % (f, kind) + (":" + where if where else "")
-                add(Variant("%s:insert:%s:%s" % (f, label, kind), cls, [f], _field_expect(f, "plain" if ins is None else "special"),
+                add(Variant("%s:insert:%s:%s" % (f, label, kind if ins in (None, b"!") else ins.hex()), cls, [f], _field_expect(f, "plain" if ins is None else "special"),
                             post=_edit(f, label, "insert", ins)))
             add(Variant("%s:delete:%s" % (f, label), "%s:char-deleted" % f + (":" + where if where else ""), [f],
                         _field_expect(f, "plain"), post=_edit(f, label, "delete")))
@@ -496,19 +500,34 @@ def make_raw(ctx, variants, pw_used):
     return r.render(), r
 
 
+_B64 = frozenset(b"ABCDEFGHIJKLMNOPQRSTUVWXYZabcdefghijklmnopqrstuvwxyz0123456789+/=")
+_WS = frozenset(b" \t\r\n\x0b\x0c")
+
+
 def _respelled(r):
-    """True if the opaque sent is not the issued one but names the same digest and the same key bytes under a
-    lenient base64 reading (classification of an acceptance only)."""
+    """None, or the KIND of re-spelling if the opaque sent is not the issued one but names the same digest and the
+    same key bytes under a lenient base64 reading (names the shape of an acceptance; never part of the verdict)."""
     sent, issued = r.fields.get("opaque") if r.fields else None, r.issued_opaque
     if r.raw is not None or sent is None or sent == issued:
-        return False
+        return None
     sent = b" ".join(sent.splitlines()).strip()
     try:
         d1, k1 = sent.split(b"-")
         d0, k0 = issued.split(b"-")
-        return d1 == d0 and base64.b64decode(k1) == base64.b64decode(k0)
+        if d1 != d0 or k1 == k0 or base64.b64decode(k1) != base64.b64decode(k0):
+            return None
     except Exception:  # noqa
-        return False
+        return None
+    foreign = [c for c in k1 if c not in _B64]
+    if any(c not in _WS for c in foreign):
+        return "non-alphabet-character-inserted"
+    if foreign:
+        return "whitespace-or-newline-inserted"
+    if k1.rstrip(b"=") == k0.rstrip(b"="):
+        return "surplus-padding"
+    if b"=" in k1.rstrip(b"="):
+        return "padding-inside-data"
+    return "unused-low-bits-of-last-character-changed"
 
 
 def combine_expect(variants):
@@ -565,7 +584,8 @@ def judge(ctx, variants, pw_used, host, singles=None):
                     alone = [v for v in rej if singles.get((v.tag, pw_used), ("",))[0] == "checked"
                              and singles[(v.tag, pw_used)][k]]
                     rej = alone[:1] or rej
-                why = NONCANON if _respelled(r) else "+".join(sorted({v.cls for v in rej}))
+                kind = _respelled(r)
+                why = (NONCANON + ":" + kind) if kind else "+".join(sorted({v.cls for v in rej}))
             elif not ctx["valid"]:
                 why = ctx["why_invalid"]
             else:
